@@ -394,6 +394,30 @@ package protocol
 //@   ensures C14.text.id.exact: implies(len(argId) == 16, forall(k, 0, 16, lockId[k] == argId[k]))
 //@   ensures C14.text.id.padded: implies(len(argId) < 16, forall(k, 0, 16, lockId[k] == ite(k < 16 - len(argId), 0, argId[k - (16 - len(argId))])))
 
+// C14/C15/C05/C06: a text command is translated into a recycled command object; whatever the previous user of that
+// object left in the fields a text command may omit (flags, timeout, expiry, counts) is cleared first, so the request
+// the lock engine sees is the one the text line describes and nothing else
+//@ func ITextProtocol.GetLockCommand
+//@   ensures result != nil
+//@   preserves *
+//@ func ITextProtocol.GetDBId
+//@   preserves *
+//@ func (*TextCommandConverter).GetAndResetLockCommand
+//@   requires !isnil(textProtocol)
+//@   ensures C14.text.fresh-command,C15.text.fresh-command,C05.text.fresh-command,C06.text.fresh-command: result != nil && result.Magic == MAGIC && result.Version == VERSION && result.Flag == 0 && result.Timeout == 0 && result.TimeoutFlag == 0 && result.Expried == 0 && result.ExpriedFlag == 0 && result.Count == 0 && result.Rcount == 0
+//@   modifies all
+
+// C14: a parsed command or reply handed to the caller owns its list of arguments: it is a copy with the parser's
+// contents, never the parser's own working slice, which Reset() truncates and the next message overwrites in place
+//@ func (*TextParser).GetResponseCommand
+//@   requires self != nil
+//@   ensures C14.reply.own-results: implies(result0 != nil && self.argsType != 2, len(result0.Results) == len(self.args) && forall(k, 0, len(self.args), result0.Results[k] == self.args[k]) && (len(self.args) == 0 || arr(result0.Results) != arr(self.args)))
+//@   modifies E_string
+//@ func (*TextParser).GetRequestCommand
+//@   requires self != nil
+//@   ensures C14.request.own-args: implies(result0 != nil, len(result0.Args) == len(self.args) && forall(k, 0, len(self.args), result0.Args[k] == self.args[k]) && (len(self.args) == 0 || arr(result0.Args) != arr(self.args)))
+//@   modifies E_string
+
 // C13: the readers of a stored value's inner structure (array elements, key/value pairs, property entries) never index
 // past the value, whatever lengths its bytes announce (the value is the bytes a client sent, kept as they came)
 //@ func (*LockResultCommandData).GetArrayValue
